@@ -1,5 +1,6 @@
 CONSTANTS
   C04Pairs = {0, 1537, 262143}
+  C04Seq = {33, 70}
   C07Bases = {0, 32769}
 INIT Init
 NEXT Next
